@@ -39,11 +39,20 @@ def check(ctx, src):
     ctx.need(tv is not None, "macroexpand: the variable tested by the loop was not recognised")
     rets_in = [n for n in ast.walk(loop) if isinstance(n, ast.Return)]
     AT = boolfn.Atoms(I="isinstance(obj, (hy.compiler.Result, AST))", K="result_ok")
-    r_obj = [r for r in rets_in if isinstance(r.value, ast.Name) and r.value.id != tv]
-    r_tree = [r for r in rets_in if isinstance(r.value, ast.Name) and r.value.id == tv]
+    # a returned temporary stands for what was assigned to it
+    sites = []
+    for r in rets_in:
+        if isinstance(r.value, ast.Name):
+            defs = [a for a in ast.walk(loop) if isinstance(a, ast.Assign) and len(a.targets) == 1 and isinstance(a.targets[0], ast.Name) and a.targets[0].id == r.value.id and isinstance(a.value, ast.Name)]
+            if r.value.id != tv and defs and all(d.lineno <= r.lineno for d in defs) and not any(isinstance(a.value, ast.Call) for a in ast.walk(loop) if isinstance(a, ast.Assign) and isinstance(a.targets[0], ast.Name) and a.targets[0].id == r.value.id):
+                sites += [(d, d.value.id) for d in defs]
+            else:
+                sites.append((r, r.value.id))
+    r_obj = [n for n, name in sites if name != tv]
+    r_tree = [n for n, name in sites if name == tv]
     v1, c1 = boolfn.equivalent(r_obj, loop, AT, lambda e: e["I"] and e["K"])
     v2, c2 = boolfn.equivalent(r_tree, loop, AT, lambda e: e["I"] and not e["K"])
-    ok_names = len(rets_in) == len(r_obj) + len(r_tree)
+    ok_names = all(isinstance(r.value, ast.Name) for r in rets_in)
     ctx.decide("MX-LOOP", f"{MC}|macroexpand|result", None if (v1 is None or v2 is None) else (v1 and v2 and ok_names),
                f"a compiler Result must be returned only when result_ok, else the tree as expanded so far (the loop variable `{tv}`); found returns of {[norm(r.value) for r in rets_in]}", MC, loop.lineno, detail="obj if result_ok else tree")
     rebind = pyq.contains(loop, lambda n: isinstance(n, ast.Assign) and isinstance(n.targets[0], ast.Name) and n.targets[0].id == tv and isinstance(n.value, ast.Call) and dotted(n.value.func) == "replace_hy_obj")
